@@ -51,11 +51,14 @@ class _SJSONEncoder(json.JSONEncoder):
 def _json_hook(d):
     if cls := d.pop('_cls', None):
         d.pop('_fmtcomment', None)
-        d.pop('str', None)  # str methods
         cls = globals()[cls]
         if isinstance(cls, (Strand, Defect)):
             return cls(d['value'])
+        elif issubclass(cls, Attr):
+            # metadata may use any key, e.g. 'self' or 'str'
+            return cls(d)
         else:
+            d.pop('str', None)  # str namespace written by old versions
             return cls(**d)
     else:
         return d
